@@ -139,11 +139,11 @@ def validate_oracle(cores, tables):
 # --------------------------------------------------------------------------
 # cfg files for spec/Likelihood.tla
 # --------------------------------------------------------------------------
-LIK_INVARIANTS = ("TypeOK", "AlgEqDef", "NoRaise", "BlendOK", "MCNormalised", "Partition", "ScaleInvariant")
+LIK_INVARIANTS = ("TypeOK", "AlgEqDef", "NoRaise", "BlendOK", "MCNormalised", "Partition", "MixWeights", "ScaleInvariant")
 
 
 def lik_cfg(path, *, max_data, max_bg, max_mc, ngroups=1, w="WQuick", v="VQuick", bkg="BkgQuick", phi="PhiQuick", kinds=SPEC_KINDS,
-            paths=("grad", "value"), constr="NoConstr", gm=(1,), scales=(1,), ragged="sum", cached="eff", only_defects=False,
+            paths=("grad", "value", "mix"), constr="NoConstr", gm=(1,), scales=(1,), ragged="sum", cached="eff", only_defects=False,
             emit_max=0, invariants=LIK_INVARIANTS):
     def sset(xs):
         return "{" + ", ".join('"%s"' % x if isinstance(x, str) else str(x) for x in xs) + "}"
@@ -176,6 +176,9 @@ IMPL_KINDS = {
     "cfit_cached": ("cfit_cached", {"model": "cfit", "bg_frac": 0.5, "cached_amp": True}),
     "cfit_ext": ("cfit_ext", {"model": "cfit", "bg_frac": 0.5, "extended": True}),
     "simple_cfit": ("cfit", {"model": "simple_cfit", "bg_frac": 0.5}),
+    # MixLogLikehoodFCN (`using_mix_likelihood: True`): one merged data sum + per data set n_k int_f(I_k)
+    "mix_default": ("default", {"using_mix_likelihood": True}),
+    "mix_extended": ("extended", {"using_mix_likelihood": True, "extended": True}),
     # the other registered custom models of tf_pwa/model/custom.py
     "simple_clip": ("simple", {"model": "simple_clip"}),
     "constr_frac": ("simple_pen", {"model": "constr_frac", "constr_frac": {"R_BC": {"res": ["R_BC"], "value": 0.2, "sigma": 0.05}}}),
